@@ -1,0 +1,19 @@
+//go:build verif
+
+// Package verifhook carries the verification hooks of the library. With the
+// build tag "verif" off every function in here is an empty stub; with it on,
+// events are forwarded to Sink when a test harness has installed one.
+package verifhook
+
+// Enabled reports whether the hooks are compiled in.
+const Enabled = true
+
+// Sink receives hook events (package, event name, integer arguments). Nil unless a harness installs it.
+var Sink func(pkg, ev string, a ...int64)
+
+// T emits one event.
+func T(pkg, ev string, a ...int64) {
+	if s := Sink; s != nil {
+		s(pkg, ev, a...)
+	}
+}
